@@ -306,3 +306,14 @@ _ROUND11 = {
 }
 for _k, _v in _ROUND11.items():
     META[_k]["text"] += " " + _v
+
+# dimensions added after the twelfth round (ten properties)
+_ROUND12 = {
+    "C02": "A third of the forced-interleaving targets run on a stopped clock; a fifth of the writes are stamped in the past.",
+    "C09": "The time of the last change a lossy subscriber received per id is compared with the caller-chosen time of the last write.",
+    "C10": "Every other delete is stamped long ago.",
+    "C11": "Items written at the zero time are listed concurrently.",
+    "C19": "Half of the worlds run on a clock whose readings go backwards; allow-missing deletes of absent modes may carry an expected value.",
+}
+for _k, _v in _ROUND12.items():
+    META[_k]["text"] += " " + _v
